@@ -122,16 +122,22 @@ func diagClass(m *mismatch) string {
 	return ""
 }
 
+// subset: every path of a occurs in b, possibly nested deeper (b's path ends
+// with ">"+a's path); each path of b is used at most once.
 func subset(a, b []string) bool {
-	have := map[string]int{}
-	for _, x := range b {
-		have[x]++
-	}
+	used := make([]bool, len(b))
 	for _, x := range a {
-		if have[x] == 0 {
+		found := false
+		for j, y := range b {
+			if !used[j] && (y == x || strings.HasSuffix(y, ">"+x)) {
+				used[j] = true
+				found = true
+				break
+			}
+		}
+		if !found {
 			return false
 		}
-		have[x]--
 	}
 	return true
 }
